@@ -118,7 +118,7 @@ impl Run {
         let wall_cap_s = std::env::var("VERIF_MAX_WALL")
             .ok()
             .and_then(|s| s.parse::<f64>().ok())
-            .unwrap_or(if tier == "quick" { 120.0 } else { 1500.0 });
+            .unwrap_or(if tier == "quick" { 300.0 } else { 1500.0 });
         Self {
             reporter: vcore::Reporter::new(prop, tier),
             evaluations: 0,
